@@ -1,0 +1,96 @@
+//go:build verif
+
+package font
+
+// Contracts for contract-based deductive verification (comment-only; see /verif/DESIGN.md).
+//
+// ---------------------------------------------------------------------------------------------
+// Property C11: character map lookup and enumeration agree. The abstract view of each format is written from the
+// OpenType 'cmap' specification: format 12 maps c in [Start_k, End_k] to c - Start_k + StartGlyph_k, format 13 to
+// StartGlyph_k, format 4 to (c + idDelta_k) mod 65536, or through the glyph index array ((entry + idDelta_k) mod 65536,
+// a zero entry meaning "missing glyph"), format 6/10 to entries[c - firstCode].
+// Well-formedness (established by the table parsers' sanitizers): groups sorted and pairwise disjoint.
+//@ spec groupsSorted(s []tables.SequentialMapGroup) bool = forall(k, 0, len(s), s[k].StartCharCode <= s[k].EndCharCode && forall(l, k+1, len(s), s[k].EndCharCode < s[l].StartCharCode))
+//
+//@ func cmap12.Lookup C11
+//@   mode bv
+//@   requires groupsSorted(s)
+//@   ensures [found] forall(k, 0, len(s), implies(s[k].StartCharCode <= uint32(r) && uint32(r) <= s[k].EndCharCode, result1 && result0 == GID(uint32(r)-s[k].StartCharCode+s[k].StartGlyphID)))
+//@   ensures [absent] implies(forall(k, 0, len(s), !(s[k].StartCharCode <= uint32(r) && uint32(r) <= s[k].EndCharCode)), !result1 && result0 == 0)
+//@   modifies nothing
+//@   loop 1 invariant [bounds] 0 <= i && i <= j && j <= len(s) && c == uint32(r)
+//@   loop 1 invariant [left] forall(k, 0, i, s[k].EndCharCode < c)
+//@   loop 1 invariant [right] forall(k, j, len(s), c < s[k].StartCharCode)
+//
+//@ func cmap13.Lookup C11
+//@   mode bv
+//@   requires groupsSorted(s)
+//@   ensures [found] forall(k, 0, len(s), implies(s[k].StartCharCode <= uint32(r) && uint32(r) <= s[k].EndCharCode, result1 && result0 == GID(s[k].StartGlyphID)))
+//@   ensures [absent] implies(forall(k, 0, len(s), !(s[k].StartCharCode <= uint32(r) && uint32(r) <= s[k].EndCharCode)), !result1 && result0 == 0)
+//@   modifies nothing
+//@   loop 1 invariant [bounds] 0 <= i && i <= j && j <= len(s) && c == uint32(r)
+//@   loop 1 invariant [left] forall(k, 0, i, s[k].EndCharCode < c)
+//@   loop 1 invariant [right] forall(k, j, len(s), c < s[k].StartCharCode)
+//
+// Iterators: position (pos1, pos2) denotes character StartCharCode+pos2 of group pos1. Char returns the pair the view
+// prescribes for that character (so Iter and Lookup agree) and moves to the next character of the enumeration.
+//@ func cmap12Iter.Char C11
+//@   mode bv
+//@   requires 0 <= it.pos1 && it.pos1 < len(it.data) && 0 <= it.pos2 && it.pos2 <= 1<<32
+//@   requires uint32(it.pos2) <= it.data[it.pos1].EndCharCode - it.data[it.pos1].StartCharCode && it.data[it.pos1].StartCharCode <= it.data[it.pos1].EndCharCode && it.data[it.pos1].EndCharCode <= 0x7fffffff
+//@   ensures [char] uint32(r) == old(it.data[it.pos1].StartCharCode) + uint32(old(it.pos2)) && uint32(r) <= old(it.data[it.pos1].EndCharCode)
+//@   ensures [agrees-with-view] gy == GID(uint32(r) - old(it.data[it.pos1].StartCharCode) + old(it.data[it.pos1].StartGlyphID))
+//@   ensures [advance] ite(uint32(r) == old(it.data[it.pos1].EndCharCode), it.pos1 == old(it.pos1)+1 && it.pos2 == 0, it.pos1 == old(it.pos1) && it.pos2 == old(it.pos2)+1)
+//@   modifies it.pos1; it.pos2
+//
+//@ func cmap13Iter.Char C11
+//@   mode bv
+//@   requires 0 <= it.pos1 && it.pos1 < len(it.data) && 0 <= it.pos2 && it.pos2 <= 1<<32
+//@   requires uint32(it.pos2) <= it.data[it.pos1].EndCharCode - it.data[it.pos1].StartCharCode && it.data[it.pos1].StartCharCode <= it.data[it.pos1].EndCharCode && it.data[it.pos1].EndCharCode <= 0x7fffffff
+//@   ensures [char] uint32(r) == old(it.data[it.pos1].StartCharCode) + uint32(old(it.pos2)) && uint32(r) <= old(it.data[it.pos1].EndCharCode)
+//@   ensures [agrees-with-view] gy == GID(old(it.data[it.pos1].StartGlyphID))
+//@   ensures [advance] ite(uint32(r) == old(it.data[it.pos1].EndCharCode), it.pos1 == old(it.pos1)+1 && it.pos2 == 0, it.pos1 == old(it.pos1) && it.pos2 == old(it.pos2)+1)
+//@   modifies it.pos1; it.pos2
+//
+// Format 4.
+//@ spec segsSorted(s cmap4) bool = forall(k, 0, len(s), s[k].start <= s[k].end && implies(s[k].indexes != nil, len(s[k].indexes) == int(s[k].end-s[k].start)+1) && forall(l, k+1, len(s), s[k].end < s[l].start))
+//@ func cmap4.Lookup C11
+//@   mode bv
+//@   requires segsSorted(s)
+//@   ensures [beyond-bmp] implies(uint32(r) > 0xffff, !result1 && result0 == 0)
+//@   ensures [found-delta] implies(uint32(r) <= 0xffff, forall(k, 0, len(s), implies(s[k].start <= uint16(r) && uint16(r) <= s[k].end && s[k].indexes == nil, result1 && result0 == GID(uint16(r)+s[k].delta))))
+//@   ensures [found-index] implies(uint32(r) <= 0xffff, forall(k, 0, len(s), implies(s[k].start <= uint16(r) && uint16(r) <= s[k].end && s[k].indexes != nil,
+//@     | ite(s[k].indexes[int(uint16(r)-s[k].start)] == 0, !result1 && result0 == 0, result1 && result0 == GID(uint16(s[k].indexes[int(uint16(r)-s[k].start)])+s[k].delta)))))
+//@   ensures [absent] implies(uint32(r) <= 0xffff && forall(k, 0, len(s), !(s[k].start <= uint16(r) && uint16(r) <= s[k].end)), !result1 && result0 == 0)
+//@   modifies nothing
+//@   loop 1 invariant [bounds] 0 <= i && i <= j && j <= len(s) && c == uint16(r) && uint32(r) <= 0xffff
+//@   loop 1 invariant [left] forall(k, 0, i, s[k].end < c)
+//@   loop 1 invariant [right] forall(k, j, len(s), c < s[k].start)
+//
+//@ func cmap4Iter.Char C11
+//@   mode bv
+//@   requires 0 <= it.pos1 && it.pos1 < len(it.data) && 0 <= it.pos2 && it.pos2 <= 0xffff
+//@   requires it.data[it.pos1].start <= it.data[it.pos1].end && uint16(it.pos2) <= it.data[it.pos1].end-it.data[it.pos1].start
+//@   requires implies(it.data[it.pos1].indexes != nil, len(it.data[it.pos1].indexes) == int(it.data[it.pos1].end-it.data[it.pos1].start)+1)
+//@   ensures [char] uint16(r) == old(it.data[it.pos1].start) + uint16(old(it.pos2)) && 0 <= r && r <= 0xffff && uint16(r) <= old(it.data[it.pos1].end)
+//@   ensures [agrees-with-view-delta] implies(old(it.data[it.pos1].indexes == nil), gy == GID(uint16(r)+old(it.data[it.pos1].delta)))
+//@   ensures [agrees-with-view-index] implies(old(it.data[it.pos1].indexes != nil), gy == ite(old(it.data[it.pos1].indexes[it.pos2]) == 0, GID(0), GID(uint16(old(it.data[it.pos1].indexes[it.pos2]))+old(it.data[it.pos1].delta))))
+//@   ensures [yields-only-mapped] implies(old(it.data[it.pos1].indexes != nil), old(it.data[it.pos1].indexes[it.pos2]) != 0)
+//@   ensures [advance] ite(uint16(r) == old(it.data[it.pos1].end), it.pos1 == old(it.pos1)+1 && it.pos2 == 0, it.pos1 == old(it.pos1) && it.pos2 == old(it.pos2)+1)
+//@   modifies it.pos1; it.pos2
+//
+// Format 6 / 10.
+//@ func cmap6or10.Lookup C11
+//@   mode bv
+//@   requires len(s.entries) <= 1<<31 && 0 <= s.firstCode
+//@   ensures [in-range] implies(r >= s.firstCode && int(r)-int(s.firstCode) < len(s.entries), result1 && result0 == GID(s.entries[int(r)-int(s.firstCode)]))
+//@   ensures [out-of-range] implies(!(r >= s.firstCode && int(r)-int(s.firstCode) < len(s.entries)), !result1 && result0 == 0)
+//@   modifies nothing
+//
+//@ func cmap6Or10Iter.Char C11
+//@   mode bv
+//@   requires 0 <= it.pos && it.pos < len(it.data.entries) && len(it.data.entries) <= 1<<20 && 0 <= it.data.firstCode && it.data.firstCode <= 0x10ffff
+//@   ensures [char] int(result0) == int(old(it.data.firstCode)) + old(it.pos)
+//@   ensures [agrees-with-view] result1 == GID(old(it.data.entries[it.pos]))
+//@   ensures [advance] it.pos == old(it.pos)+1
+//@   modifies it.pos
